@@ -4,7 +4,7 @@ CONSTANTS
   MCHints <- HintSets
   MCPlain = {"bitcoin", "regtest", "testnet", "testnet4", "signet", "litecoin", "litecoin_legacy", "litecoin_testnet", "dogecoin", "dogecoin_testnet", "bitcoinlib_test"}
   MCTargets = {"bitcoin", "litecoin", "dogecoin", "testnet"}
-  MCMaxOps = 2
+  MCMaxOps = 3
 INVARIANT RoundTrip
 INVARIANT ExportIsCurrent
 INVARIANT ConversionIdentity
